@@ -6,12 +6,12 @@
 
 _Static_assert(ATTR_PATH_INDEX_START == '[' && ATTR_PATH_INDEX_END == ']' && ATTR_PATH_KEY_DELIM == '.', "AP_SPECIAL in _ghost.h matches attr_path.h");
 #define AP_BASE_FRESH (__CPROVER_is_fresh(xv_ap_base, AP_STR_MAX))
-#ifdef XV_AP_E1
-#define AP_BASE_STR (xv_ap_len <= AP_END && xv_ap_base[AP_END] == 0)
-#else
+/* the string: NUL at the end of the object and no NUL before it.  "No NUL before" is stated for the ONE arbitrary
+ * absolute position xv_ap_a (never assigned): every job is proved for every value of it, and the only consumer of the
+ * fact -- the strlen shortcut in env/attrpath_env.h -- asserts it for that same position.  (A bounded forall over the
+ * 299 positions costs ~45k variables each time a replaced callee's precondition is checked: 130 x 2 times in parse.) */
 #define AP_BASE_STR (xv_ap_len <= AP_END && xv_ap_base[AP_END] == 0 && \
-                     __CPROVER_forall { size_t q_; (q_ < AP_END) ==> (q_ >= AP_END - xv_ap_len ==> xv_ap_base[q_] != 0) })
-#endif
+                     ((xv_ap_a >= AP_END - xv_ap_len && xv_ap_a < AP_END) ==> xv_ap_base[xv_ap_a] != 0))
 #define AP_START (xv_ap_base + (AP_END - xv_ap_len))
 /* p points at a character (or the NUL) of a string that passed the length gate */
 /* (pointer_in_range_dfcc, not same_object: symex resolves dereferences through value sets, an assumed same_object on a
@@ -19,6 +19,24 @@ _Static_assert(ATTR_PATH_INDEX_START == '[' && ATTR_PATH_INDEX_END == ']' && ATT
 #define AP_INSIDE(p) (xv_ap_len <= ATTR_PATH_NAME_MAX && __CPROVER_pointer_in_range_dfcc(xv_ap_base, (p), xv_ap_base + AP_END) && \
                       AP_OFF(p) >= AP_END - xv_ap_len)
 #define AP_RV __CPROVER_return_value
+/* Clauses that READ CHARACTERS of the string are dropped (XV_AP_SLIM) where a contract REPLACES a call in the job of
+ * attr_path_parse: assuming less is sound, and each read at a symbolic offset would be paid once per unwound iteration.
+ * They are proved in the callee's own job. */
+#ifdef XV_AP_STRICT_INDEX
+#define __CPROVER_ensures_strict(e) __CPROVER_ensures(e)
+#else
+#define __CPROVER_ensures_strict(e)
+#endif
+#ifdef XV_AP_DESTROY_JOB
+#define __CPROVER_ensures_destroy(e) __CPROVER_ensures(e)
+#else
+#define __CPROVER_ensures_destroy(e)
+#endif
+#ifdef XV_AP_SLIM
+#define __CPROVER_ensures_chars(e)
+#else
+#define __CPROVER_ensures_chars(e) __CPROVER_ensures(e)
+#endif
 /* a key component made by the parser: own object, own NUL-terminated key of n >= 1 key characters */
 #define AP_IS_KEY(c, n) (__CPROVER_is_fresh((c), sizeof(struct attr_pcomp)) && (c)->type == attr_pcomp_type_key && \
                          __CPROVER_is_fresh((c)->key, (size_t)(n) + 1) && (c)->key[n] == 0)
@@ -37,13 +55,13 @@ __CPROVER_requires(AP_INSIDE(path_str))
 __CPROVER_assigns(*comp)
 __CPROVER_ensures(AP_RV == -1 || (AP_RV >= 1 && (size_t)AP_RV <= AP_REM(path_str)))
 /* PO[C19] attr_pcomp_parse_key.rejects_iff_empty_key */
-__CPROVER_ensures((AP_RV == -1) == !AP_KEYCHAR(path_str[0]))
-__CPROVER_ensures(AP_RV == -1 ==> *comp == __CPROVER_old(*comp))
+__CPROVER_ensures_chars((AP_RV == -1) == !AP_KEYCHAR(path_str[0]))
+__CPROVER_ensures(AP_RV == -1 ==> *comp == NULL)
 __CPROVER_ensures(AP_RV > 0 ==> AP_IS_KEY(*comp, AP_RV))
 /* PO[C19] attr_pcomp_parse_key.key_is_exact_copy */
-__CPROVER_ensures((AP_RV > 0 && xv_ap_q < (size_t)AP_RV) ==> ((*comp)->key[xv_ap_q] == path_str[xv_ap_q] && AP_KEYCHAR(path_str[xv_ap_q])))
+__CPROVER_ensures_chars((AP_RV > 0 && xv_ap_q < (size_t)AP_RV) ==> ((*comp)->key[xv_ap_q] == path_str[xv_ap_q] && AP_KEYCHAR(path_str[xv_ap_q])))
 /* PO[C19] attr_pcomp_parse_key.longest_match */
-__CPROVER_ensures(AP_RV > 0 ==> !AP_KEYCHAR(path_str[AP_RV]))
+__CPROVER_ensures_chars(AP_RV > 0 ==> !AP_KEYCHAR(path_str[AP_RV]))
 ;
 
 /* ---- attr_pcomp_parse_index: "<index>]" at path_str (the '[' was consumed by the caller) */
@@ -53,15 +71,225 @@ __CPROVER_requires(AP_BASE_STR)
 __CPROVER_requires(AP_INSIDE(path_str))
 __CPROVER_assigns(*comp, xv_ap_strtol_val, xv_ap_strtol_used)
 __CPROVER_ensures(AP_RV == -1 || (AP_RV >= 2 && (size_t)AP_RV <= AP_REM(path_str)))
-__CPROVER_ensures(AP_RV == -1 ==> *comp == __CPROVER_old(*comp))
+__CPROVER_ensures(AP_RV == -1 ==> *comp == NULL)
 __CPROVER_ensures(AP_RV > 0 ==> AP_IS_INDEX(*comp))
-/* PO[C19] attr_pcomp_parse_index.value_and_terminator */
-__CPROVER_ensures(AP_RV > 0 ==> (xv_ap_strtol_used == (size_t)AP_RV - 1 && path_str[AP_RV - 1] == ATTR_PATH_INDEX_END && \
-                                 xv_ap_strtol_val >= 0 && xv_ap_strtol_val < LONG_MAX && (*comp)->index == (size_t)xv_ap_strtol_val))
-/* between the brackets there is nothing but what strtol consumed: no NUL, no special character */
-__CPROVER_ensures((AP_RV > 0 && xv_ap_q < (size_t)AP_RV - 1) ==> AP_KEYCHAR(path_str[xv_ap_q]))
+/* PO[C19] attr_pcomp_parse_index.value_in_range */
+__CPROVER_ensures(AP_RV > 0 ==> (xv_ap_strtol_used == (size_t)AP_RV - 1 && xv_ap_strtol_val >= 0 && xv_ap_strtol_val < LONG_MAX && \
+                                 (*comp)->index == (size_t)xv_ap_strtol_val))
+/* PO[C19] attr_pcomp_parse_index.closing_bracket */
+__CPROVER_ensures_chars(AP_RV > 0 ==> path_str[AP_RV - 1] == ATTR_PATH_INDEX_END)
+/* between the brackets there is nothing but what strtol consumed (white space, sign, digits): no NUL, no special character */
+/* PO[C19] attr_pcomp_parse_index.number_characters_only */
+__CPROVER_ensures_chars((AP_RV > 0 && xv_ap_q < (size_t)AP_RV - 1) ==> AP_NUMCHAR(path_str[xv_ap_q]))
+/* the documented syntax is "[<index>]": an index is a sequence of digits -- no white space, no sign.  This clause is
+ * present ONLY in the job that checks it (parse_index, -DXV_AP_STRICT_INDEX): where the contract replaces a call it must
+ * not be assumed, because the current code violates it and the assumption would cut those inputs out of the callers' proofs */
 /* PO[C19] attr_pcomp_parse_index.digits_only */
-__CPROVER_ensures((AP_RV > 0 && xv_ap_q < (size_t)AP_RV - 1) ==> AP_DIGIT(path_str[xv_ap_q]))
+__CPROVER_ensures_strict((AP_RV > 0 && xv_ap_q < (size_t)AP_RV - 1) ==> AP_DIGIT(path_str[xv_ap_q]))
+;
+
+/* ---- attr_pcomp_parse: one ".key" or "[index]" component at path_str; 0 at the end of the string */
+static int attr_pcomp_parse(const char *path_str, struct attr_pcomp **comp)
+__CPROVER_requires(AP_BASE_FRESH && AP_SLOT(comp))
+__CPROVER_requires(AP_BASE_STR)
+__CPROVER_requires(AP_INSIDE(path_str))
+__CPROVER_assigns(*comp, xv_ap_strtol_val, xv_ap_strtol_used)
+__CPROVER_ensures(AP_RV == -1 || AP_RV == 0 || (AP_RV >= 2 && (size_t)AP_RV <= AP_REM(path_str)))
+/* PO[C19] attr_pcomp_parse.zero_iff_end_of_string */
+__CPROVER_ensures((AP_RV == 0) == (AP_REM(path_str) == 0))
+__CPROVER_ensures(AP_RV <= 0 ==> *comp == NULL)
+__CPROVER_ensures(AP_RV > 0 ==> (__CPROVER_is_fresh(*comp, sizeof(struct attr_pcomp)) && \
+                                 ((*comp)->type == attr_pcomp_type_key || (*comp)->type == attr_pcomp_type_index)))
+__CPROVER_ensures((AP_RV > 0 && (*comp)->type == attr_pcomp_type_key) ==> (__CPROVER_is_fresh((*comp)->key, (size_t)AP_RV) && (*comp)->key[AP_RV - 1] == 0))
+__CPROVER_ensures((AP_RV > 0 && (*comp)->type == attr_pcomp_type_index) ==> (AP_RV >= 3 && (*comp)->index == (size_t)xv_ap_strtol_val && \
+                                 xv_ap_strtol_val >= 0 && xv_ap_strtol_val < LONG_MAX))
+/* PO[C19] attr_pcomp_parse.rejects_other_first_character */
+__CPROVER_ensures_chars((path_str[0] != 0 && path_str[0] != ATTR_PATH_KEY_DELIM && path_str[0] != ATTR_PATH_INDEX_START) ==> AP_RV == -1)
+/* PO[C19] attr_pcomp_parse.key_component_text */
+__CPROVER_ensures_chars((AP_RV > 0 && (*comp)->type == attr_pcomp_type_key) ==> (path_str[0] == ATTR_PATH_KEY_DELIM && !AP_KEYCHAR(path_str[AP_RV])))
+/* PO[C19] attr_pcomp_parse.key_is_exact_copy */
+__CPROVER_ensures_chars((AP_RV > 0 && (*comp)->type == attr_pcomp_type_key && xv_ap_q < (size_t)AP_RV - 1) ==> \
+                        ((*comp)->key[xv_ap_q] == path_str[1 + xv_ap_q] && AP_KEYCHAR(path_str[1 + xv_ap_q])))
+/* PO[C19] attr_pcomp_parse.index_component_text */
+__CPROVER_ensures_chars((AP_RV > 0 && (*comp)->type == attr_pcomp_type_index) ==> (path_str[0] == ATTR_PATH_INDEX_START && path_str[AP_RV - 1] == ATTR_PATH_INDEX_END))
+/* PO[C19] attr_pcomp_parse.index_number_characters_only */
+__CPROVER_ensures_chars((AP_RV > 0 && (*comp)->type == attr_pcomp_type_index && xv_ap_q < (size_t)AP_RV - 2) ==> AP_NUMCHAR(path_str[1 + xv_ap_q]))
+;
+
+/* ---- the heap shape of a path: slots 0..num_comps-1 hold live, pairwise distinct components, a key component owns a
+ * live key string.  CBMC has no inductive heap predicates; the shape is WRITTEN OUT for AP_SHAPE_N = 4 slots, so every job
+ * that takes a whole path as input (destroy, equal, len, to_str) is a BOUNDED stand-in: paths of 0..4 components (writing
+ * out all ATTR_PATH_COMP_MAX = 64 slots exhausts the solver's memory in attr_path_destroy; 8 slots take 8 minutes).  Key strings live in objects
+ * of AP_KEY_OBJ bytes with a NUL in the last byte: keys of 0..AP_KEY_OBJ-1 characters. */
+#define AP_SHAPE_N 4
+#define AP_KEY_OBJ 16
+#define AP_SLOT_OK(p, i) ((i) < (p)->num_comps ==> (__CPROVER_is_fresh((p)->comps[i], sizeof(struct attr_pcomp)) && \
+    ((p)->comps[i]->type == attr_pcomp_type_key || (p)->comps[i]->type == attr_pcomp_type_index) && \
+    ((p)->comps[i]->type == attr_pcomp_type_key ==> (__CPROVER_is_fresh((p)->comps[i]->key, AP_KEY_OBJ) && (p)->comps[i]->key[AP_KEY_OBJ - 1] == 0))))
+#define AP_PATH_SHAPE(p) ((p)->num_comps <= AP_SHAPE_N && \
+    AP_SLOT_OK(p, 0) && \
+    AP_SLOT_OK(p, 1) && \
+    AP_SLOT_OK(p, 2) && \
+    AP_SLOT_OK(p, 3))
+#define AP_PATH_OK(p) (__CPROVER_is_fresh((p), sizeof(struct attr_path)) && AP_PATH_SHAPE(p))
+#define AP_FREE_COMP(p, i) p != NULL && !xv_ap_trust_shape && i < p->num_comps: p->comps[i]
+#define AP_FREE_KEY(p, i) p != NULL && !xv_ap_trust_shape && i < p->num_comps && p->comps[i]->type == attr_pcomp_type_key: p->comps[i]->key
+#define AP_FREES_COMPS(p) AP_FREE_COMP(p, 0); \
+    AP_FREE_COMP(p, 1); \
+    AP_FREE_COMP(p, 2); \
+    AP_FREE_COMP(p, 3)
+#define AP_FREES_KEYS(p) AP_FREE_KEY(p, 0); \
+    AP_FREE_KEY(p, 1); \
+    AP_FREE_KEY(p, 2); \
+    AP_FREE_KEY(p, 3)
+
+/* ---- attr_path_destroy
+ * xv_ap_trust_shape (ghost, never assigned): TRUE only in the job of attr_path_parse, whose loop contract cannot carry the
+ * heap shape (loops/attrpath.loops).  There the call of attr_path_destroy on the failure path is replaced by this contract
+ * with the shape part of the precondition TRUSTED (listed as an assumption; the shape of what attr_path_parse builds is
+ * checked for all strings of the bounded jobs, with the real attr_path_destroy and --memory-leak-check).  In the job that
+ * proves attr_path_destroy itself the flag is FALSE: the whole precondition is assumed and everything is proved freed. */
+_Bool xv_ap_trust_shape;
+struct attr_pcomp *xv_ap_g_comp; char *xv_ap_g_key;   /* ghost constants: component xv_ap_j and its key on entry */
+void attr_path_destroy(struct attr_path *path)
+__CPROVER_requires(path == NULL || (__CPROVER_is_fresh(path, sizeof(struct attr_path)) && path->num_comps <= ATTR_PATH_COMP_MAX))
+__CPROVER_requires((path != NULL && !xv_ap_trust_shape) ==> AP_PATH_SHAPE(path))
+__CPROVER_requires((path != NULL && !xv_ap_trust_shape && xv_ap_j < path->num_comps) ==> (xv_ap_g_comp == path->comps[xv_ap_j] && \
+                   (path->comps[xv_ap_j]->type == attr_pcomp_type_key ==> xv_ap_g_key == path->comps[xv_ap_j]->key) && \
+                   (path->comps[xv_ap_j]->type != attr_pcomp_type_key ==> xv_ap_g_key == NULL)))
+__CPROVER_assigns()
+__CPROVER_frees(path; AP_FREES_COMPS(path); AP_FREES_KEYS(path))
+/* (was_freed clauses only where the contract is ENFORCED, -DXV_AP_DESTROY_JOB: assuming them at a replaced call trips
+ * a check of CBMC's contracts library -- "ptr must exist in the contract's frees clause" -- although path is listed) */
+/* PO[C19] attr_path_destroy.frees_path */
+__CPROVER_ensures_destroy(path != NULL ==> __CPROVER_was_freed(path))
+/* PO[C19] attr_path_destroy.frees_every_component */
+__CPROVER_ensures_destroy((path != NULL && xv_ap_j < __CPROVER_old(path->num_comps)) ==> __CPROVER_was_freed(xv_ap_g_comp))
+/* PO[C19] attr_path_destroy.frees_every_key */
+__CPROVER_ensures_destroy((path != NULL && xv_ap_j < __CPROVER_old(path->num_comps) && xv_ap_g_key != NULL) ==> __CPROVER_was_freed(xv_ap_g_key))
+__CPROVER_ensures(1)
+;
+
+/* ---- attr_path_parse (outer loop: loop contract, see loops/attrpath.loops) */
+struct attr_path *attr_path_parse(const char *path_str, bool root)
+__CPROVER_requires(AP_BASE_FRESH)
+__CPROVER_requires(AP_BASE_STR)
+__CPROVER_requires(__CPROVER_pointer_in_range_dfcc(xv_ap_base, path_str, xv_ap_base + AP_END) && AP_OFF(path_str) == AP_END - xv_ap_len)
+__CPROVER_assigns(xv_ap_strtol_val, xv_ap_strtol_used)
+__CPROVER_ensures(AP_RV == NULL || __CPROVER_is_fresh(AP_RV, sizeof(struct attr_path)))
+/* PO[C10,C19] attr_path_parse.overlong_rejected */
+__CPROVER_ensures(xv_ap_len > ATTR_PATH_NAME_MAX ==> AP_RV == NULL)
+/* PO[C10,C19] attr_path_parse.comp_bound */
+__CPROVER_ensures(AP_RV != NULL ==> AP_RV->num_comps <= ATTR_PATH_COMP_MAX)
+/* PO[C19] attr_path_parse.empty_string_is_empty_path */
+__CPROVER_ensures(xv_ap_len == 0 ==> (AP_RV != NULL && AP_RV->num_comps == 0))
+/* PO[C19] attr_path_parse.nonempty_string_has_components */
+__CPROVER_ensures((AP_RV != NULL && xv_ap_len > 0) ==> (AP_RV->num_comps >= 1 && 2 * AP_RV->num_comps <= xv_ap_len + 1))
+/* PO[C19] attr_path_parse.unused_slots_null */
+__CPROVER_ensures((AP_RV != NULL && xv_ap_j < ATTR_PATH_COMP_MAX && xv_ap_j >= AP_RV->num_comps) ==> AP_RV->comps[xv_ap_j] == NULL)
+;
+
+/* ---- accessors (the ut_assert()s of the real text are the API preconditions) */
+size_t attr_path_num_comps(const struct attr_path *path)
+__CPROVER_requires(__CPROVER_is_fresh(path, sizeof(struct attr_path)))
+__CPROVER_assigns()
+__CPROVER_ensures(AP_RV == path->num_comps)
+;
+const struct attr_pcomp *attr_path_get_comp(const struct attr_path *path, size_t comp_num)
+__CPROVER_requires(__CPROVER_is_fresh(path, sizeof(struct attr_path)) && path->num_comps <= ATTR_PATH_COMP_MAX && comp_num < path->num_comps)
+__CPROVER_assigns()
+/* PO[C10] attr_path_get_comp.in_bounds_slot */
+__CPROVER_ensures(AP_RV == path->comps[comp_num])
+;
+enum attr_pcomp_type attr_pcomp_get_type(const struct attr_pcomp *pcomp)
+__CPROVER_requires(__CPROVER_is_fresh(pcomp, sizeof(struct attr_pcomp)))
+__CPROVER_assigns()
+__CPROVER_ensures(AP_RV == pcomp->type)
+;
+bool attr_pcomp_is_key(const struct attr_pcomp *pcomp)
+__CPROVER_requires(__CPROVER_is_fresh(pcomp, sizeof(struct attr_pcomp)))
+__CPROVER_assigns()
+__CPROVER_ensures(AP_RV == (pcomp->type == attr_pcomp_type_key))
+;
+bool attr_pcomp_is_index(const struct attr_pcomp *pcomp)
+__CPROVER_requires(__CPROVER_is_fresh(pcomp, sizeof(struct attr_pcomp)))
+__CPROVER_assigns()
+__CPROVER_ensures(AP_RV == (pcomp->type == attr_pcomp_type_index))
+;
+const char *attr_pcomp_get_key(const struct attr_pcomp *pcomp)
+__CPROVER_requires(__CPROVER_is_fresh(pcomp, sizeof(struct attr_pcomp)) && pcomp->type == attr_pcomp_type_key)
+__CPROVER_assigns()
+__CPROVER_ensures(AP_RV == pcomp->key)
+;
+size_t attr_pcomp_get_index(const struct attr_pcomp *pcomp)
+__CPROVER_requires(__CPROVER_is_fresh(pcomp, sizeof(struct attr_pcomp)) && pcomp->type == attr_pcomp_type_index)
+__CPROVER_assigns()
+__CPROVER_ensures(AP_RV == pcomp->index)
+;
+
+/* ---- attr_path_equal (bounded: AP_PATH_OK).  Sound and complete, stated for the arbitrary component xv_ap_j and the
+ * arbitrary key position xv_ap_q: position q "counts" if no NUL precedes it in a's key (then it lies within a's string,
+ * NUL included); two strings are equal iff they agree on every such position */
+#define AP_EQ_A(a) ((a)->comps[xv_ap_j])
+/* (v: name of the bound variable -- it must be unique within one contract) */
+#define AP_Q_COUNTS(k, v) (xv_ap_q < AP_KEY_OBJ && __CPROVER_forall { size_t v; (v < AP_KEY_OBJ) ==> (v < xv_ap_q ==> (k)[v] != 0) })
+#define AP_J_BOTH(a, b, t) (xv_ap_j < (a)->num_comps && (a)->num_comps == (b)->num_comps && AP_EQ_A(a)->type == (t) && AP_EQ_A(b)->type == (t))
+bool attr_path_equal(const struct attr_path *path_a, const struct attr_path *path_b)
+__CPROVER_requires(AP_PATH_OK(path_a))
+__CPROVER_requires(AP_PATH_OK(path_b))
+__CPROVER_assigns()
+/* PO[C19] attr_path_equal.true_implies_same_components */
+__CPROVER_ensures(AP_RV ==> (path_a->num_comps == path_b->num_comps && \
+    (xv_ap_j < path_a->num_comps ==> AP_EQ_A(path_a)->type == AP_EQ_A(path_b)->type) && \
+    (AP_J_BOTH(path_a, path_b, attr_pcomp_type_index) ==> AP_EQ_A(path_a)->index == AP_EQ_A(path_b)->index) && \
+    ((AP_J_BOTH(path_a, path_b, attr_pcomp_type_key) && AP_Q_COUNTS(AP_EQ_A(path_a)->key, k1_)) ==> AP_EQ_A(path_a)->key[xv_ap_q] == AP_EQ_A(path_b)->key[xv_ap_q])))
+/* PO[C19] attr_path_equal.false_if_sizes_differ */
+__CPROVER_ensures(path_a->num_comps != path_b->num_comps ==> !AP_RV)
+/* PO[C19] attr_path_equal.false_if_a_component_differs */
+__CPROVER_ensures((xv_ap_j < path_a->num_comps && path_a->num_comps == path_b->num_comps && AP_EQ_A(path_a)->type != AP_EQ_A(path_b)->type) ==> !AP_RV)
+__CPROVER_ensures((AP_J_BOTH(path_a, path_b, attr_pcomp_type_index) && AP_EQ_A(path_a)->index != AP_EQ_A(path_b)->index) ==> !AP_RV)
+__CPROVER_ensures((AP_J_BOTH(path_a, path_b, attr_pcomp_type_key) && AP_Q_COUNTS(AP_EQ_A(path_a)->key, k2_) && \
+                   AP_EQ_A(path_a)->key[xv_ap_q] != AP_EQ_A(path_b)->key[xv_ap_q]) ==> !AP_RV)
+;
+
+/* ---- attr_path_len / attr_path_to_str (bounded: AP_PATH_OK).  Ghost constants (never assigned) bound by AP_TEXT_OK:
+ * xv_ap_klen[i] = strlen of key i, xv_ap_dlen[i] = number of decimal digits of index i (indices below LONG_MAX, as the
+ * parser makes them: PO attr_pcomp_parse_index.value_in_range) */
+size_t xv_ap_klen[AP_SHAPE_N], xv_ap_dlen[AP_SHAPE_N];
+#define AP_TEXT_I(p, i) (((i) < (p)->num_comps && (p)->comps[i]->type == attr_pcomp_type_key) ==> \
+        (xv_ap_klen[i] < AP_KEY_OBJ && (p)->comps[i]->key[xv_ap_klen[i]] == 0 && \
+         __CPROVER_forall { size_t kk_##i; (kk_##i < AP_KEY_OBJ) ==> (kk_##i < xv_ap_klen[i] ==> (p)->comps[i]->key[kk_##i] != 0) })) && \
+    (((i) < (p)->num_comps && (p)->comps[i]->type == attr_pcomp_type_index) ==> \
+        ((p)->comps[i]->index < (size_t)LONG_MAX && xv_ap_dlen[i] >= 1 && xv_ap_dlen[i] <= 19 && \
+         (xv_ap_dlen[i] == 1 || (p)->comps[i]->index >= xv_ap_p10[xv_ap_dlen[i] - 1]) && (p)->comps[i]->index < xv_ap_p10[xv_ap_dlen[i]]))
+#define AP_TEXT_OK(p) (AP_TEXT_I(p, 0) && AP_TEXT_I(p, 1) && AP_TEXT_I(p, 2) && AP_TEXT_I(p, 3))
+#define AP_LEN_I(p, i, root) ((i) >= (p)->num_comps ? (size_t)0 : (p)->comps[i]->type == attr_pcomp_type_key ? \
+        xv_ap_klen[i] + (((i) == 0 && (root)) ? (size_t)0 : (size_t)1) : xv_ap_dlen[i] + 2)
+#define AP_LEN(p, root) (AP_LEN_I(p, 0, root) + AP_LEN_I(p, 1, root) + AP_LEN_I(p, 2, root) + AP_LEN_I(p, 3, root))
+_Static_assert(AP_SHAPE_N == 4, "AP_TEXT_OK / AP_LEN are written out for 4 slots");
+/* a root path starts with a key (ut_assert in attr_path_len; attr_path_parse guarantees it) */
+#define AP_ROOT_OK(p, root) ((root) ==> ((p)->num_comps == 0 || (p)->comps[0]->type == attr_pcomp_type_key))
+
+size_t attr_path_len(const struct attr_path *path, bool root)
+__CPROVER_requires(AP_PATH_OK(path))
+__CPROVER_requires(AP_TEXT_OK(path) && AP_ROOT_OK(path, root))
+__CPROVER_assigns()
+/* PO[C19] attr_path_len.exact */
+__CPROVER_ensures(AP_RV == AP_LEN(path, root))
+;
+char *attr_path_to_str(const struct attr_path *path, bool root)
+__CPROVER_requires(AP_PATH_OK(path))
+__CPROVER_requires(AP_TEXT_OK(path) && AP_ROOT_OK(path, root))
+__CPROVER_assigns()
+/* PO[C10,C19] attr_path_to_str.own_buffer_of_exact_size */
+__CPROVER_ensures(__CPROVER_is_fresh(AP_RV, AP_LEN(path, root) + 1))
+/* PO[C19] attr_path_to_str.terminated_at_len */
+__CPROVER_ensures(AP_RV[AP_LEN(path, root)] == 0)
+/* PO[C19] attr_path_to_str.no_nul_inside */
+__CPROVER_ensures(xv_ap_q < AP_LEN(path, root) ==> AP_RV[xv_ap_q] != 0)
+/* PO[C19] attr_path_to_str.first_character */
+__CPROVER_ensures(path->num_comps >= 1 ==> (path->comps[0]->type == attr_pcomp_type_index ? AP_RV[0] == ATTR_PATH_INDEX_START : \
+                                            root ? AP_RV[0] == path->comps[0]->key[0] : AP_RV[0] == ATTR_PATH_KEY_DELIM))
 ;
 #include "contracts/end.h"
 #endif
